@@ -1,4 +1,6 @@
+mod c04;
 mod c05;
+mod c15;
 mod c17;
 mod case;
 mod exec_float;
@@ -39,7 +41,9 @@ fn self_test() {
 fn gen_case(prop: &str, seed: u64, index: u64) -> case::Case {
     match prop {
         "C17" => c17::gen_case(seed, index),
+        "C04" => c04::gen_case(seed, index),
         "C05" => c05::gen_case(seed, index),
+        "C15" => c15::gen_case(seed, index),
         _ => die(&format!("unknown property {prop}")),
     }
 }
@@ -47,16 +51,30 @@ fn gen_case(prop: &str, seed: u64, index: u64) -> case::Case {
 /// per-property oracle state that outlives single cases (counters for the evidence)
 struct Ctx {
     c05: c05::C05Hook,
+    c15: c15::C15Counters,
+    c04: c04::C04Counters,
 }
 impl Ctx {
     fn new() -> Ctx {
-        Ctx { c05: c05::C05Hook::new() }
+        Ctx { c05: c05::C05Hook::new(), c15: c15::C15Counters::default(), c04: c04::C04Counters::default() }
     }
     fn extra(&self) -> serde_json::Value {
         serde_json::json!({
             "c05_comparisons": self.c05.comparisons,
             "c05_equal_pairs": self.c05.equal_pairs,
             "c05_cross_layout_equal_pairs": self.c05.cross_layout_equal_pairs,
+            "c04_lockstep_steps": self.c04.lockstep_steps,
+            "c04_expected_div0_panics": self.c04.expected_div0_panics,
+            "c04_integer_valued_results": self.c04.integer_valued_results,
+            "c04_zero_results": self.c04.zero_results,
+            "c04_inputs_sharing_denominator_factors": self.c04.shared_factor_inputs,
+            "c04_relaxed_results_without_common_factor_two": self.c04.relaxed_reduced_by_two_only,
+            "c15_form_groups_run": self.c15.form_groups_run,
+            "c15_forms_executed": self.c15.forms_executed,
+            "c15_forms_skipped": self.c15.forms_skipped,
+            "c15_all_forms_panicked_groups": self.c15.all_panicked_groups,
+            "c15_clone_steps": self.c15.clone_steps,
+            "c15_frame_checks": self.c15.frame_checks,
         })
     }
 }
@@ -65,6 +83,8 @@ fn run_case(c: &case::Case, stats: &mut run::Stats, ctx: &mut Ctx) -> case::Case
     match c.property.as_str() {
         "C17" => c17::run_case(c, stats),
         "C05" => case::CaseResult::from_outcome(c05::run_case(c, stats, &mut ctx.c05)),
+        "C15" => c15::run_case(c, stats, &mut ctx.c15),
+        "C04" => c04::run_case(c, stats, &mut ctx.c04),
         p => die(&format!("unknown property {p}")),
     }
 }
@@ -100,6 +120,8 @@ fn main() {
             let mut stats = run::Stats::new();
             let mut ctx = Ctx::new();
             let mut nviol = 0;
+            let mut soft_seen: Vec<String> = Vec::new();
+            let mut soft_hits = 0u64;
             let mut executions = 0u64;
             let mut fault_points = 0u64;
             let mut enumerated = 0u64;
@@ -122,6 +144,15 @@ fn main() {
                 }
                 if hashes {
                     writeln!(lock, "HASH {} {:016x}", i, r.chain).unwrap();
+                }
+                if let Some(v) = &r.soft {
+                    if !soft_seen.contains(&v.class) {
+                        soft_seen.push(v.class.clone());
+                        let mut fc = c.clone();
+                        fc.ops.truncate(v.step + 1);
+                        writeln!(lock, "SOFT {}", serde_json::to_string(&fc.to_json(Some(&v.class), Some(&format!("step {}: {}", v.step, v.detail)))).unwrap()).unwrap();
+                    }
+                    soft_hits += 1;
                 }
                 if let Some(v) = &r.violation {
                     let fc = r.failing.as_ref().unwrap_or(&c);
@@ -153,6 +184,7 @@ fn main() {
             j["histories_enumerated"] = enumerated.into();
             j["determinism_rechecks"] = rechecked.into();
             j["violations"] = nviol.into();
+            j["soft_hits"] = soft_hits.into();
             j["extra"] = ctx.extra();
             writeln!(lock, "STATS {}", j).unwrap();
         }
@@ -175,7 +207,10 @@ fn main() {
                     println!("RESULT violation class={} step={} detail={}", v.class, v.step, v.detail);
                     println!("CASE {}", serde_json::to_string(&fc.to_json(Some(&v.class), Some(&v.detail))).unwrap());
                 }
-                None => println!("RESULT ok chain={:016x}", r.chain),
+                None => match r.soft {
+                    Some(v) => println!("RESULT violation class={} step={} detail={}", v.class, v.step, v.detail),
+                    None => println!("RESULT ok chain={:016x}", r.chain),
+                },
             }
         }
         _ => {
